@@ -6,8 +6,11 @@ argument-passing kind of every arm) and `Gen.TermBodies` (bodies) through `evalB
 `csi` / `esc` / `c0` for every state, label and parameter list. So for the arms that call a function nothing of the model is
 hand-transcribed any more: an edit of a callee's body, of the callee an arm names, or of how an arm passes its parameters
 changes a generated term and breaks `csi_is_generated` / `esc_is_generated` / `c0_is_generated` (or is a neutral rewrite).
-The inline arms that contain code (DECSCUSR, single shifts, keypad modes, charset designations, SO/SI) are translated bodies too;
-only the reply-only arms (DA1, DA2, DSR, `$p`), `ESC # 8` (empty) and BEL (an event) stay as the model has them.
+The inline arms that contain code (DECSCUSR, single shifts, keypad modes, charset designations, SO/SI) are translated bodies too,
+and since round 4 so are the arms that only answer the child (DA1, DA2, DSR), the empty ones (`CSI $ p`, `ESC # 8`) and BEL (one
+event), the statements of csi() in front of its switch (the parameter clamp: `body_csi_pre`), and update() itself: `updateGen` is
+"look the kind of the parsed sequence up in the regenerated table `updateArms` and do what the arm says" (`update_is_generated`).
+No arm of the dispatch path is hand-transcribed any more.
 -/
 import VaxisModel.Props.C05Bodies
 
@@ -23,7 +26,7 @@ def runArm (b : Body) (k : ArgKind) (pm : List Param) (e : Emu) : M Emu :=
   | .none => evalBody b [] [] e
   | .inline => evalBody b pm [] e        -- the inline arms SU / SD read `params` themselves
 
-/-- the translated body an arm of csi() runs; `none` = an inline arm without a callee -/
+/-- the translated body an arm of csi() runs (every arm has one) -/
 def csiBodyOf : CsiArm → Option Body
   | .ich => some TermBodies.body_ich | .cuu => some TermBodies.body_cuu | .cud => some TermBodies.body_cud
   | .cuf => some TermBodies.body_cuf | .cub => some TermBodies.body_cub | .cnl => some TermBodies.body_cnl
@@ -38,17 +41,19 @@ def csiBodyOf : CsiArm → Option Body
   | .sgr => some TermBodies.body_sgr | .decrqm => some TermBodies.body_decrqm | .decstbm => some TermBodies.body_decstbm
   | .decsc => some TermBodies.body_decsc | .decrc => some TermBodies.body_decrc
   | .arm_2071 => some TermBodies.body_csi_arm_2071
-  | .arm_63 => none | .arm_3e63 => none | .arm_6e => none | .arm_2470 => none
+  | .arm_63 => some TermBodies.body_csi_arm_63 | .arm_3e63 => some TermBodies.body_csi_arm_3e63
+  | .arm_6e => some TermBodies.body_csi_arm_6e | .arm_2470 => some TermBodies.body_csi_arm_2470
 
 /-- csi() from generated data only (plus the inline arms) -/
-def csiGen (e : Emu) (label : List Nat) (pm0 : List Param) : M Emu :=
-  let pm := clampParams pm0
+def csiGen (e : Emu) (label : List Nat) (pm0 : List Param) : M Emu := do
+  -- the statements in front of the switch (the clamp), then the switch
+  let pm ← evalPm TermBodies.body_csi_pre pm0
   match csiTable.find? (·.1 = label) with
   | none => .ok e
   | some (_, arm, kind) =>
     match csiBodyOf arm with
     | some b => runArm b kind pm e
-    | none => .ok e                     -- DA1, DA2, DSR, `$p`: a reply (or nothing) only
+    | none => .ok e                     -- (no such arm: `csi_arms_all_translated`)
 
 /-- the arm-level statement, for every entry of the regenerated table -/
 def CsiEntryOk (x : List Nat × CsiArm × ArgKind) : Prop :=
@@ -84,8 +89,8 @@ theorem all_csi_entries : ∀ x ∈ csiTable, CsiEntryOk x := by
   · intro e pm0; simp only [csiBodyOf, runArm]; rw [body_hpa]; rfl
   · intro e pm0; simp only [csiBodyOf, runArm]; rw [body_hpr]; rfl
   · intro e pm0; simp only [csiBodyOf, runArm]; rw [body_rep]; rfl
-  · intro e pm0; rfl
-  · intro e pm0; rfl
+  · intro e pm0; simp only [csiBodyOf, runArm]; rw [body_csi_arm_63]; rfl
+  · intro e pm0; simp only [csiBodyOf, runArm]; rw [body_csi_arm_3e63]; rfl
   · intro e pm0; simp only [csiBodyOf, runArm]; rw [body_vpa]; rfl
   · intro e pm0; simp only [csiBodyOf, runArm]; rw [body_vpr]; rfl
   · intro e pm0; simp only [csiBodyOf, runArm]; rw [body_cup]; rfl
@@ -95,8 +100,8 @@ theorem all_csi_entries : ∀ x ∈ csiTable, CsiEntryOk x := by
   · intro e pm0; simp only [csiBodyOf, runArm]; rw [body_rm]; rfl
   · intro e pm0; simp only [csiBodyOf, runArm]; rw [body_decrst]; rfl
   · intro e pm0; simp only [csiBodyOf, runArm]; rw [body_sgr]; rfl
-  · intro e pm0; rfl
-  · intro e pm0; rfl
+  · intro e pm0; simp only [csiBodyOf, runArm]; rw [body_csi_arm_6e]; rfl
+  · intro e pm0; simp only [csiBodyOf, runArm]; rw [body_csi_arm_2470]; rfl
   · intro e pm0; simp only [csiBodyOf, runArm]; rw [body_decrqm]; rfl
   · intro e pm0; simp only [csiBodyOf, runArm]; rw [body_decstbm]; rfl
   · intro e pm0; simp only [csiBodyOf, runArm]; rw [body_decsc]; rfl
@@ -107,6 +112,13 @@ theorem all_csi_entries : ∀ x ∈ csiTable, CsiEntryOk x := by
 theorem csi_is_generated (e : Emu) (label : List Nat) (pm0 : List Param) :
     csi Fixes.current e label pm0 = csiGen e label pm0 := by
   unfold csiGen
+  rw [body_csi_pre]
+  show _ = (match csiTable.find? (·.1 = label) with
+    | none => Except.ok e
+    | some (_, arm, kind) =>
+      match csiBodyOf arm with
+      | some b => runArm b kind (clampParams pm0) e
+      | none => Except.ok e)
   cases hf : csiTable.find? (·.1 = label) with
   | none =>
     have : lookupArm csiTable label = none := by unfold lookupArm; rw [hf]; rfl
@@ -131,7 +143,7 @@ def escBodyOf : EscArm → Option Body
   | .arm_2a30 => some TermBodies.body_esc_arm_2a30 | .arm_2b30 => some TermBodies.body_esc_arm_2b30
   | .arm_2842 => some TermBodies.body_esc_arm_2842 | .arm_2942 => some TermBodies.body_esc_arm_2942
   | .arm_2a42 => some TermBodies.body_esc_arm_2a42 | .arm_2b42 => some TermBodies.body_esc_arm_2b42
-  | .arm_2338 => none
+  | .arm_2338 => some TermBodies.body_esc_arm_2338
 
 /-- the arms of esc() that call a function, from generated data only -/
 def EscEntryOk (x : List Nat × EscArm × ArgKind) : Prop :=
@@ -162,7 +174,7 @@ theorem all_esc_entries : ∀ x ∈ escTable, EscEntryOk x := by
   · intro e; simp only [escBodyOf, runArm]; rw [body_esc_arm_2942]; rfl
   · intro e; simp only [escBodyOf, runArm]; rw [body_esc_arm_2a42]; rfl
   · intro e; simp only [escBodyOf, runArm]; rw [body_esc_arm_2b42]; rfl
-  · intro e; trivial
+  · intro e; simp only [escBodyOf, runArm]; rw [body_esc_arm_2338]; rfl
 
 /-- the translated body an arm of c0() runs -/
 def c0BodyOf : C0Arm → Option Body
@@ -171,17 +183,24 @@ def c0BodyOf : C0Arm → Option Body
   | .arm_0e => some TermBodies.body_c0_arm_0e | .arm_0f => some TermBodies.body_c0_arm_0f
   | .arm_07 => none
 
-/-- the arms of c0() that call a function, from generated data only (they post no event) -/
+/-- BEL: the arm that posts an event -/
+def c0EvBodyOf : C0Arm → Option Body
+  | .arm_07 => some TermBodies.body_c0_arm_07
+  | _ => none
+
+/-- the arms of c0() from generated data only: a body that posts no event, or (BEL) one run with the event count -/
 def C0EntryOk (x : List Nat × C0Arm × ArgKind) : Prop :=
   ∀ (e : Emu) (r : Nat), x.1 = [r] → match c0BodyOf x.2.1 with
     | some b => c0 Fixes.current e r = (runArm b x.2.2 [] e >>= fun e' => .ok (e', 0))
-    | none => True
+    | none => match c0EvBodyOf x.2.1 with
+      | some b => c0 Fixes.current e r = evalBodyEv b [] [] e
+      | none => True
 
 theorem all_c0_entries : ∀ x ∈ c0Table, C0EntryOk x := by
   intro x hx
   simp only [c0Table, List.mem_cons, List.not_mem_nil, or_false] at hx
   rcases hx with rfl | rfl | rfl | rfl | rfl | rfl | rfl | rfl | rfl
-  · intro e r hr; trivial
+  · intro e r hr; cases hr; simp only [c0BodyOf, c0EvBodyOf]; rw [body_c0_arm_07]; rfl
   · intro e r hr; cases hr; simp only [c0BodyOf, runArm]; rw [body_bs]; rfl
   · intro e r hr; cases hr; simp only [c0BodyOf, runArm]; rw [body_ht]; rfl
   · intro e r hr; cases hr; simp only [c0BodyOf, runArm]; rw [body_lf]; rfl
@@ -198,7 +217,7 @@ def escGen (e : Emu) (label : List Nat) : M Emu :=
   | some (_, arm, kind) =>
     match escBodyOf arm with
     | some b => runArm b kind [] e
-    | none => esc Fixes.current e label
+    | none => .ok e                      -- (no such arm: `esc_arms_all_translated`)
 
 /-- **esc() is the regenerated table composed with the regenerated bodies** (DECSC, DECRC, IND, NEL, HTS, RI, RIS). -/
 theorem esc_is_generated (e : Emu) (label : List Nat) : esc Fixes.current e label = escGen e label := by
@@ -217,7 +236,7 @@ theorem esc_is_generated (e : Emu) (label : List Nat) : esc Fixes.current e labe
     have h := all_esc_entries _ (List.mem_of_find?_eq_some hf) e
     simp only [EscEntryOk] at h ⊢
     cases hb : escBodyOf arm with
-    | none => rfl
+    | none => cases arm <;> simp [escBodyOf] at hb
     | some b => simp only [hb] at h; exact h
 
 /-- c0() likewise (BS, HT, LF, VT, FF, CR; BEL and SO/SI are inline) -/
@@ -227,7 +246,9 @@ def c0Gen (e : Emu) (r : Nat) : M (Emu × Nat) :=
   | some (_, arm, kind) =>
     match c0BodyOf arm with
     | some b => runArm b kind [] e >>= fun e' => .ok (e', 0)
-    | none => c0 Fixes.current e r
+    | none => match c0EvBodyOf arm with
+      | some b => evalBodyEv b [] [] e
+      | none => .ok (e, 0)               -- (no such arm: `c0_arms_all_translated`)
 
 theorem c0_is_generated (e : Emu) (r : Nat) : c0 Fixes.current e r = c0Gen e r := by
   unfold c0Gen
@@ -245,14 +266,92 @@ theorem c0_is_generated (e : Emu) (r : Nat) : c0 Fixes.current e r = c0Gen e r :
     have h := all_c0_entries _ (List.mem_of_find?_eq_some hf) e r rfl
     simp only [C0EntryOk] at h ⊢
     cases hb : c0BodyOf arm with
-    | none => rfl
+    | none =>
+      simp only [hb] at h
+      cases hb2 : c0EvBodyOf arm with
+      | none => cases arm <;> simp [c0BodyOf, c0EvBodyOf] at hb hb2
+      | some b => simp only [hb2] at h; exact h
     | some b => simp only [hb] at h; exact h
+
+/-- every arm of the three dispatchers has a translated body -/
+theorem csi_arms_all_translated : ∀ a : CsiArm, (csiBodyOf a).isSome = true := by intro a; cases a <;> rfl
+theorem esc_arms_all_translated : ∀ a : EscArm, (escBodyOf a).isSome = true := by intro a; cases a <;> rfl
+theorem c0_arms_all_translated : ∀ a : C0Arm, ((c0BodyOf a).isSome || (c0EvBodyOf a).isSome) = true := by intro a; cases a <;> rfl
+
+/-! ### update(): the type switch over the kinds of parsed sequence -/
+
+/-- the kind update()'s type switch sees (a resize is not a parsed sequence) -/
+def kindOf : EOp → Option SeqKind
+  | .print _ _ => some .print
+  | .c0 _ => some .c0
+  | .esc _ => some .esc
+  | .csi _ _ => some .csi
+  | .osc _ _ => some .osc
+  | .dcs => some .dcs
+  | .apc => some .apc
+  | .resize _ _ => none
+
+/-- what an arm of update() does with the sequence — through the generated dispatchers / bodies only. An arm handed a sequence of
+    another kind than the calls it makes can take (cannot happen in Go: the type switch binds `seq` at the case's type) does nothing. -/
+def runUArm (a : UArm) (e : Emu) (op : EOp) (hostEmpty : Bool) : M (Emu × Nat) :=
+  match a, op with
+  | .print, .print g w => evalPrint TermBodies.body_print g w e >>= fun e' => .ok (e', 0)
+  | .c0, .c0 r => c0Gen e r
+  | .esc, .esc l => escGen e l >>= fun e' => .ok (e', 0)
+  | .csi, .csi l pm => csiGen e l pm >>= fun e' => .ok (e', 0)
+  | .osc, .osc d info => evalOsc TermBodies.body_osc d info hostEmpty e
+  | .dcs, _ => .ok (e, 0)                -- the sixel arm changes `vt.graphics` only (Model/EmuDcs.lean, `dcs_safe`)
+  | .post, _ => .ok (e, 1)
+  | _, _ => .ok (e, 0)
+
+/-- update() from generated data only: look the kind up in `updateArms`; no arm = nothing happens -/
+def updateGen (e : Emu) (op : EOp) (hostEmpty : Bool) : M (Emu × Nat) :=
+  match kindOf op with
+  | none => .ok (e, 0)
+  | some k =>
+    match TermBodies.updateArms.find? (·.1 = k) with
+    | none => .ok (e, 0)
+    | some (_, a) => runUArm a e op hostEmpty
+
+/-- **update() is the regenerated table of its type switch composed with the regenerated dispatchers and bodies**: for every state
+    and every parsed sequence (print, C0, ESC, CSI with any parameters, OSC with any payload, DCS, APC), the model's step is
+    `updateGen` — the state AND the number of events posted. -/
+theorem update_is_generated (e : Emu) (op : EOp) (hostEmpty : Bool) (h : kindOf op ≠ none) :
+    emuStep e op = updateGen e op hostEmpty := by
+  cases op with
+  | print g w =>
+    show (print Fixes.current e g w >>= fun e' => Except.ok (e', 0)) = _
+    simp only [updateGen, kindOf, TermBodies.updateArms, List.find?, decide_true, decide_false, runUArm, body_print]
+  | c0 r =>
+    show c0 Fixes.current e r = _
+    rw [c0_is_generated]; rfl
+  | esc l =>
+    show (esc Fixes.current e l >>= fun e' => Except.ok (e', 0)) = _
+    rw [esc_is_generated]; rfl
+  | csi l pm =>
+    show (csi Fixes.current e l pm >>= fun e' => Except.ok (e', 0)) = _
+    rw [csi_is_generated]; rfl
+  | osc d info =>
+    show osc Fixes.current e d info = _
+    rw [← body_osc e d info hostEmpty]; rfl
+  | dcs => rfl
+  | apc => rfl
+  | resize w h' => exact absurd rfl h
+
+/-- the shape of update() the table was read from: lock, the three defers, then the type switch as the last statement; one arm
+    per kind of sequence, none unknown -/
+theorem update_shape :
+    TermBodies.updatePre = ["vt.mu.Lock()", "defer vt.mu.Unlock()", "defer vt.parser.Finish(seq)", "defer vt.invalidate()"] ∧
+    TermBodies.updateSwitchLast = true ∧
+    TermBodies.updateArms.map (·.1) = [.print, .c0, .esc, .csi, .osc, .dcs, .apc] ∧
+    (TermBodies.updateArms.all fun x => match x.2 with | .unknown _ => false | _ => true) = true := by
+  refine ⟨rfl, rfl, rfl, rfl⟩
 
 /-- Non-vacuity / reading aid: CUU is `evalBody body_cuu` on `ps(params)`, SGR is `evalBody body_sgr` on the list, DECSC takes nothing. -/
 example (e : Emu) (pm : List Param) :
     csi Fixes.current e [65] pm = evalBody TermBodies.body_cuu [] [ps (clampParams pm)] e ∧
     csi Fixes.current e [109] pm = evalBody TermBodies.body_sgr (clampParams pm) [] e ∧
     csi Fixes.current e [115] pm = evalBody TermBodies.body_decsc [] [] e := by
-  refine ⟨?_, ?_, ?_⟩ <;> (rw [csi_is_generated]; rfl)
+  refine ⟨?_, ?_, ?_⟩ <;> (rw [csi_is_generated]; unfold csiGen; rw [body_csi_pre]; rfl)
 
 end VaxisModel.Props.C05Dispatch
